@@ -127,22 +127,48 @@ async fn run_tr(w: &mut CaseWriter, probes: &[u64], toks: &[String]) {
     for (i, t) in all.iter().enumerate() {
         if *t != "F" {
             if t.starts_with("P:") {
-                let before = set_contents(&actor_set(&group, KS).await).1.len();
+                let count = |s: Option<Set2>| s.map(|s| set_contents(&s).1.len()).unwrap_or(0);
+                let before = count(try_actor_set(&group, KS).await);
                 apply_token(&group, t).await;
-                let after = set_contents(&actor_set(&group, KS).await).1.len();
+                let after = count(try_actor_set(&group, KS).await);
                 w.stats.hit(if after < before { "purge_removed_tombstones" } else { "purge_removed_nothing" });
             } else {
                 apply_token(&group, t).await;
             }
             continue;
         }
-        let sent = actor_set(&group, KS).await;
+        let sent = try_actor_set(&group, KS).await;
+        if sent.is_none() {
+            fails.push(("peer-cannot-serialise-its-state".into(), format!("fetch after token {}", i)));
+        }
         match client.get_state(KS).await {
             Ok((_, got)) => {
                 outs.push(format!("ok {}", show_set(&got, probes)));
                 w.stats.hit("transfer_ok");
-                if let Some(b) = compare_sets(&got, &sent, probes) {
-                    fails.push(("received-state-differs-from-sent".into(), format!("fetch after token {}: {}", i, b)));
+                if let Some(sent) = &sent {
+                    if let Some(b) = compare_sets(&got, sent, probes) {
+                        fails.push(("received-state-differs-from-sent".into(), format!("fetch after token {}: {}", i, b)));
+                    }
+                }
+                // ... and against what the peer's STORAGE holds (set = storage after every request,
+                // C02): this does not go through the actor's serialisation a second time
+                use datacake_eventual_consistency::Storage as _;
+                if let Ok(it) = store.inner.iter_metadata(KS).await {
+                    let mut live: Vec<(u64, u64)> = Vec::new();
+                    let mut dead: Vec<(u64, u64)> = Vec::new();
+                    for (k, t, d) in it {
+                        if d { dead.push((k, t.as_u64())) } else { live.push((k, t.as_u64())) }
+                    }
+                    live.sort();
+                    dead.sort();
+                    let (ge, gd) = set_contents(&got);
+                    if ge != live || gd != dead {
+                        fails.push((
+                            "received-state-differs-from-the-peers-storage".into(),
+                            format!("fetch after token {}: received {} live / {} tombstones, storage holds {} / {}",
+                                    i, ge.len(), gd.len(), live.len(), dead.len()),
+                        ));
+                    }
                 }
             },
             Err(e) => {
